@@ -1,4 +1,6 @@
 import Ebu.Props.C03
+import Ebu.Proofs.SaveConc
+import Ebu.Generated.Consts
 import Ebu.Spec.Resume
 import Ebu.Proofs.Resume
 /-!
@@ -59,6 +61,22 @@ theorem publish_during_replay_lost :
     let s := run {} ops
     typed s.log 1 = [1, 9, 5] ∧ deliveredTo s 7 = [1, 5] ∧ isLive s 7 = true :=
   Ebu.Resume.publish_during_replay_lost 
+
+/-! ### the saved offset under concurrent publishers (M5c, `Ebu/Model/SaveConc.lean`) -/
+
+/-- under EVERY schedule of any number of concurrent publishes the values saved for a subscription never decrease
+and the saved position is the last value saved – given that "read the bus offset" and "save it" are one step -/
+theorem saved_offset_monotone_concurrent (n : Nat) (sched : List Nat) :
+    let s := Ebu.SaveConc.runLocked n sched
+    s.history.Pairwise (· ≤ ·) ∧ s.saved ≤ s.lastOffset ∧ (∀ x, s.history.getLast? = some x → s.saved = x) :=
+  Ebu.SaveConc.saved_offset_monotone_concurrent n sched
+
+/-- OBLIGATION on the current source: the live handler reads `bus.lastOffset` and calls `SaveOffset` inside one
+critical section of its per-subscription mutex (extracted from persist.go on every run); without it the saved
+offset regresses (`unlocked_saved_offset_regresses`: the history [2, 1]) -/
+theorem live_save_is_one_step : Ebu.Generated.Consts.liveSaveSerialised = true ∧
+    (Ebu.SaveConc.runUnlocked 2 [0, 0, 1, 1, 1, 0]).history = [2, 1] :=
+  ⟨by decide, Ebu.SaveConc.unlocked_saved_offset_regresses.1⟩
 
 /-- the bus offset a live handler saves is written inside the `storeMu` critical section that
 also performs the append (CURRENT source), so it only ever increases; together with the
